@@ -131,3 +131,91 @@ Example shrink_negative : shrink_decide 3 (-7, 2, true) (-11, 2, true) = ShEmpty
 Proof. vm_compute. reflexivity. Qed.
 Example shrink_negative_eq : shrink_decide 3 (-5, 2, true) (-7, 2, false) = ShEq 4 (-12).  (* -7/2 < e <= -5/2: e = -3 *)
 Proof. vm_compute. reflexivity. Qed.
+
+(* ------------------------------------------------------------------------------------------ *)
+(* The boundary clause of the `2*mod` test.  With a range of length exactly 2*mod and only ONE open end the
+   range always contains two hyperplanes, so the code's `(!max_included || !min_included)` could equally be
+   `&&`: the two programs compute the same outcome on all inputs (an equivalent mutant, proved here so that
+   the correspondence check is not expected to tell them apart). *)
+Definition max_decreased_of (MAXN md : Z) (inc : bool) : Z :=
+  let sa := Z.rem MAXN md in
+  let sa := if negb inc && (sa =? 0) then md else sa in
+  let sa := if sa <? 0 then sa + md else sa in
+  MAXN - sa.
+Definition min_increased_of (MINN md : Z) (inc : bool) : Z :=
+  let sb := Z.rem MINN md in
+  let sb := if negb inc && (sb =? 0) then - md else sb in
+  let sb := if 0 <? sb then sb - md else sb in
+  MINN - sb.
+
+Lemma max_decreased_spec MAXN md inc : 0 < md ->
+  exists t, max_decreased_of MAXN md inc = t * md /\
+            (if inc then t * md <= MAXN < (t + 1) * md else t * md < MAXN <= (t + 1) * md).
+Proof.
+  intros Hmd. unfold max_decreased_of.
+  pose proof (Z.quot_rem' MAXN md) as Q1. pose proof (Z.rem_bound_abs MAXN md ltac:(lia)) as B1.
+  set (q1 := MAXN ÷ md) in *. set (r1 := Z.rem MAXN md) in *. clearbody q1 r1.
+  destruct inc; cbn [negb andb].
+  - destruct (r1 <? 0) eqn:E; [apply Z.ltb_lt in E; exists (q1 - 1) | apply Z.ltb_ge in E; exists q1]; split; lia.
+  - destruct (r1 =? 0) eqn:E0; [apply Z.eqb_eq in E0 | apply Z.eqb_neq in E0].
+    + destruct (md <? 0) eqn:E; [apply Z.ltb_lt in E; lia|]. exists (q1 - 1). split; lia.
+    + destruct (r1 <? 0) eqn:E; [apply Z.ltb_lt in E; exists (q1 - 1) | apply Z.ltb_ge in E; exists q1]; split; lia.
+Qed.
+
+Lemma min_increased_spec MINN md inc : 0 < md ->
+  exists u, min_increased_of MINN md inc = u * md /\
+            (if inc then (u - 1) * md < MINN <= u * md else (u - 1) * md <= MINN < u * md).
+Proof.
+  intros Hmd. unfold min_increased_of.
+  pose proof (Z.quot_rem' MINN md) as Q2. pose proof (Z.rem_bound_abs MINN md ltac:(lia)) as B2.
+  set (q2 := MINN ÷ md) in *. set (r2 := Z.rem MINN md) in *. clearbody q2 r2.
+  destruct inc; cbn [negb andb].
+  - destruct (0 <? r2) eqn:E; [apply Z.ltb_lt in E; exists (q2 + 1) | apply Z.ltb_ge in E; exists q2]; split; lia.
+  - destruct (r2 =? 0) eqn:E0; [apply Z.eqb_eq in E0 | apply Z.eqb_neq in E0].
+    + destruct (0 <? - md) eqn:E; [apply Z.ltb_lt in E; lia|]. exists (q2 + 1). split; lia.
+    + destruct (0 <? r2) eqn:E; [apply Z.ltb_lt in E; exists (q2 + 1) | apply Z.ltb_ge in E; exists q2]; split; lia.
+Qed.
+
+Definition shrink_decide_and (modulus : Z) (mx mn : Z * Z * bool) : shrink_out :=
+  let '(max_numer0, max_denom, max_included) := mx in
+  let '(min_numer0, min_denom, min_included) := mn in
+  let max_numer := max_numer0 * min_denom in
+  let min_numer := min_numer0 * max_denom in
+  let denom := max_denom * min_denom in
+  let md := modulus * denom in
+  let mod2 := 2 * md in
+  if (max_numer - min_numer <? mod2)
+     || ((max_numer - min_numer =? mod2) && (negb max_included && negb min_included))
+  then
+    let max_decreased := max_decreased_of max_numer md max_included in
+    let min_increased := min_increased_of min_numer md min_included in
+    if max_decreased =? min_increased then ShEq denom min_increased
+    else if max_decreased <? min_increased then ShEmpty
+    else ShUnchanged
+  else ShUnchanged.
+
+Theorem boundary_or_and_equivalent modulus mx mn :
+  0 < modulus -> 0 < snd (fst mx) -> 0 < snd (fst mn) ->
+  shrink_decide modulus mx mn = shrink_decide_and modulus mx mn.
+Proof.
+  destruct mx as [[xn xd] xi]. destruct mn as [[mn0 md0] mi]. cbn [fst snd]. intros Hm Hxd Hnd.
+  unfold shrink_decide, shrink_decide_and.
+  set (md := modulus * (xd * md0)). set (MAXN := xn * md0). set (MINN := mn0 * xd).
+  assert (Hmd : 0 < md) by (unfold md; nia).
+  change (MAXN - (if (if negb xi && (Z.rem MAXN md =? 0) then md else Z.rem MAXN md) <? 0
+                  then (if negb xi && (Z.rem MAXN md =? 0) then md else Z.rem MAXN md) + md
+                  else (if negb xi && (Z.rem MAXN md =? 0) then md else Z.rem MAXN md)))
+    with (max_decreased_of MAXN md xi).
+  change (MINN - (if 0 <? (if negb mi && (Z.rem MINN md =? 0) then - md else Z.rem MINN md)
+                  then (if negb mi && (Z.rem MINN md =? 0) then - md else Z.rem MINN md) - md
+                  else (if negb mi && (Z.rem MINN md =? 0) then - md else Z.rem MINN md)))
+    with (min_increased_of MINN md mi).
+  destruct (MAXN - MINN <? 2 * md) eqn:E1; [reflexivity|]. cbn [orb].
+  destruct (MAXN - MINN =? 2 * md) eqn:E2; [apply Z.eqb_eq in E2|reflexivity]. cbn [andb].
+  destruct (max_decreased_spec MAXN md xi Hmd) as [t [Et Ht]].
+  destruct (min_increased_spec MINN md mi Hmd) as [u [Eu Hu]].
+  destruct xi, mi; cbn [negb orb andb]; try reflexivity; rewrite Et, Eu;
+    (assert (u < t) by nia);
+    (destruct (t * md =? u * md) eqn:A; [apply Z.eqb_eq in A; nia|]);
+    (destruct (t * md <? u * md) eqn:B; [apply Z.ltb_lt in B; nia|reflexivity]).
+Qed.
